@@ -113,8 +113,8 @@ def file_sources(lg: dict[str, Any]) -> dict[str, str]:
     return {s["path"]: s["module"] for s in lg["sources"] if s["path"] and not s["isdir"]}
 
 
-def graph_map(lg: dict[str, Any]) -> dict[str, str]:
-    return {mid: v["path"] for mid, v in lg["graph"].items()}
+def graph_map(lg: dict[str, Any], dirs: bool = True) -> dict[str, str]:
+    return {mid: v["path"] for mid, v in lg["graph"].items() if dirs or not v["isdir"]}
 
 
 def sibling_stub(p: str) -> str:
@@ -149,9 +149,16 @@ def shape_of_file(path: str, layout: list[str]) -> str:
     return "+".join(traits)
 
 
-def source_diff_mechanism(only_a: list[str], only_b: list[str], layout: list[str]) -> str:
+def source_diff_mechanism(only_a: list[str], only_b: list[str], layout: list[str], any_dir: bool = False) -> str:
     """Why two styles picked different files: a structural trait of the files involved."""
     rels = [p[len(c18_gen.ROOT) + 1:] for p in only_a + only_b if p.startswith(c18_gen.ROOT + "/")]
+    if any_dir:
+        for rel in rels:
+            d, fn = os.path.split(rel)
+            stem = os.path.splitext(fn)[0]
+            as_dir = (d + "/" if d else "") + stem
+            if stem != "__init__" and any(x.startswith(as_dir + "/") for x in layout):
+                return "module-skipped-beside-same-name-dir"
     for rel in rels:
         # a module file beside a directory of the same name that has no __init__ (namespace directory)
         d, fn = os.path.split(rel)
@@ -194,12 +201,16 @@ def diff_key(prefix: str, a: dict[str, Any], b: dict[str, Any], res: dict[str, A
         rel = "second-longer" if sb[p].endswith("." + sa[p]) else "second-shorter" if sa[p].endswith("." + sb[p]) else "unrelated"
         return (f"{prefix}:module-name-differs:{rel}:{shape_of_file(p, layout)}:{tag}",
                 f"file {p} is module {sa[p]!r} in one style and {sb[p]!r} in the other")
-    ga, gb = graph_map(la), graph_map(lb)
+    # namespace-package directories carry no diagnostics: the graphs are compared on files
+    ga, gb = graph_map(la, dirs=False), graph_map(lb, dirs=False)
     if ga != gb:
         ids = sorted(set(ga) ^ set(gb)) or sorted(m for m in ga if ga[m] != gb.get(m))
         m0 = ids[0]
         pa, pb = ga.get(m0), gb.get(m0)
         fa, fb = sorted(set(ga.values()) - set(gb.values())), sorted(set(gb.values()) - set(ga.values()))
+        if prefix == "dir-vs-allfiles" and not fa and fb and source_diff_mechanism(fa, fb, layout, any_dir=True) == "module-skipped-beside-same-name-dir":
+            return (f"{prefix}:files-checked-differ:module-skipped-beside-same-name-dir",
+                    f"the directory run never checks {fb}, listing every file does")
         if (fa or fb) and source_diff_mechanism(fa, fb, layout) == "module-beside-same-name-dir-without-init":
             return (f"{prefix}:files-checked-differ:module-beside-same-name-dir-without-init",
                     f"files in the graph differ: only first {fa}, only second {fb}")
@@ -223,14 +234,18 @@ def top_name_in_other_base(res: dict[str, Any], name: str, base: str) -> bool:
     bases = {os.path.normpath(res["cwd"])}
     if res.get("mypypath"):
         bases.add(os.path.normpath(res["mypypath"]))
-    for b in bases - {os.path.normpath(base)}:
+    for b in bases:
+        other = b != os.path.normpath(base)
         if b == ".":
-            if name == root:
+            if name == root and other:
                 return True
             continue
         brel = "" if b == root else b[len(root) + 1:]
         pre = brel + "/" if brel else ""
-        if any(p.startswith(pre + name + "/") or p in (pre + name + ".py", pre + name + ".pyi") for p in layout):
+        if other and any(p.startswith(pre + name + "/") or p in (pre + name + ".py", pre + name + ".pyi") for p in layout):
+            return True
+        # a PEP 561 stub-only package `<name>-stubs` in a search base answers for `<name>` before the package itself
+        if any(p.startswith(pre + name + "-stubs/") for p in layout):
             return True
     return False
 
@@ -324,9 +339,11 @@ def judge(ctx: common.Ctx, t: dict[str, Any], res: dict[str, Any]) -> None:
 
     crashed = [r for r in runs if r["outcome"] == "crash"]
     if crashed:
+        # the crash itself belongs to C20; the graph the run had loaded before it is still judged (G) below
         ctx.inconc("internal-failure (owner: C20)")
-        ctx.extra.setdefault("foreign_incidents", []).append({"owner": "C20", "layout": layout, "witness": crashed[0].get("crash") or crashed[0].get("internal")})
-        return
+        inc = ctx.extra.setdefault("foreign_incidents", [])
+        if len(inc) < 20:
+            inc.append({"owner": "C20", "layout": layout, "args": crashed[0]["args"][2:], "witness": crashed[0].get("crash") or crashed[0].get("internal")})
     evaluated = False
     for r in runs:
         ctx.cell(f"outcome:{r['style'].split(':')[0].split('#')[0]}:{r['outcome'].split(':')[0]}")
@@ -342,7 +359,10 @@ def judge(ctx: common.Ctx, t: dict[str, Any], res: dict[str, Any]) -> None:
         if lg["multi_owner"]:
             p, ids = sorted(lg["multi_owner"].items())[0]
             srcmods = {s["module"] for s in lg["sources"]}
-            kind = "source+import" if any(i in srcmods for i in ids) else "import+import"
+            nsrc = sum(1 for i in ids if i in srcmods)
+            kind = "source+source" if nsrc >= 2 else "source+import" if nsrc else "import+import"
+            if any(not part.isidentifier() for i in ids for part in i.split(".")):
+                kind += ":module-id-with-non-identifier-component"
             ctx.violation(f"graph:file-under-two-module-names:{kind}",
                           f"no stop, yet file {p} is in the graph as modules {ids}", wit(r, file=p, ids=ids))
         if lg["key_mismatch"]:
@@ -361,6 +381,8 @@ def judge(ctx: common.Ctx, t: dict[str, Any], res: dict[str, Any]) -> None:
         if res["import_mode"] == "assigned" and r["style"].split("#")[0] in ("dir", "files") and r["outcome"] == "ok":
             ctx.count()
             judge_assigned(ctx, res, r, wit)
+    if crashed:
+        return
     # --- O: directory vs explicit files in other orders
     d = by_style.get("dir")
     for r in runs:
@@ -420,8 +442,11 @@ def judge(ctx: common.Ctx, t: dict[str, Any], res: dict[str, Any]) -> None:
         else:
             got = graph_map(rm["lg"]).get(mm["module"])
             if got not in (mm["file"], sibling_stub(mm["file"])):
-                key = (f"m-vs-file:resolves-elsewhere:{shape_of_file(mm['file'], layout)}->"
-                       f"{shape_of_file(got, layout) if got else 'nothing'}:{cfg_tag(res)}")
+                if got and got == os.path.splitext(mm["file"])[0]:
+                    key = "m-vs-file:resolves-elsewhere:same-name-directory-without-init-instead-of-module"
+                else:
+                    key = (f"m-vs-file:resolves-elsewhere:{shape_of_file(mm['file'], layout)}->"
+                           f"{shape_of_file(got, layout) if got else 'nothing'}:{cfg_tag(res)}")
                 text = f"module {mm['module']!r} (the name assigned to {mm['file']}) resolves to {got}"
         ctx.cell("M:" + ("equal" if key is None else "differs"))
         if key:
